@@ -80,25 +80,27 @@ func runExpScript(trNo int, mode, scratch string, ops []ExpOp) ([]ExpLine, error
 	}
 	var dels []delEv
 	terms := []chan bool{}
+	openColl := func(c string) error {
+		ds, err := b.NamedDataStore(dsName(c))
+		if err != nil {
+			return err
+		}
+		colls[c] = ds.(*rosmar.Collection)
+		term := make(chan bool)
+		terms = append(terms, term)
+		args := sgbucket.FeedArguments{ID: "exp-" + c, Backfill: sgbucket.FeedNoBackfill, Terminator: term}
+		return colls[c].StartDCPFeed(ctx, args, func(e sgbucket.FeedEvent) bool {
+			if e.Opcode == sgbucket.FeedOpDeletion {
+				evMu.Lock()
+				dels = append(dels, delEv{c, string(e.Key), time.Now()})
+				evMu.Unlock()
+			}
+			return true
+		}, nil)
+	}
 	open := func() error {
 		for _, c := range expColls {
-			ds, err := b.NamedDataStore(dsName(c))
-			if err != nil {
-				return err
-			}
-			colls[c] = ds.(*rosmar.Collection)
-			c := c
-			term := make(chan bool)
-			terms = append(terms, term)
-			args := sgbucket.FeedArguments{ID: "exp-" + c, Backfill: sgbucket.FeedNoBackfill, Terminator: term}
-			if err := colls[c].StartDCPFeed(ctx, args, func(e sgbucket.FeedEvent) bool {
-				if e.Opcode == sgbucket.FeedOpDeletion {
-					evMu.Lock()
-					dels = append(dels, delEv{c, string(e.Key), time.Now()})
-					evMu.Unlock()
-				}
-				return true
-			}, nil); err != nil {
+			if err := openColl(c); err != nil {
 				return err
 			}
 		}
@@ -112,6 +114,28 @@ func runExpScript(trNo int, mode, scratch string, ops []ExpOp) ([]ExpLine, error
 			func() { defer func() { _ = recover() }(); close(t) }()
 		}
 	}()
+	if trNo%2 == 0 {
+		// every other script runs on a bucket whose expiry machinery has already run once
+		w := uint32(time.Now().Unix()) + 1
+		for _, c := range expColls {
+			if err := colls[c].Set("warm", w, nil, []byte(`0`)); err != nil {
+				return nil, err
+			}
+		}
+		deadline := time.Now().Add(6 * time.Second)
+		for time.Now().Before(deadline) {
+			n := 0
+			for _, c := range expColls {
+				if ok, _ := colls[c].Exists("warm"); ok {
+					n++
+				}
+			}
+			if n == 0 {
+				break
+			}
+			time.Sleep(50 * time.Millisecond)
+		}
+	}
 	// start just after a second boundary so that all calls of the script fall into the same second
 	for time.Now().Nanosecond() > 200_000_000 {
 		time.Sleep(10 * time.Millisecond)
@@ -183,6 +207,12 @@ func runExpScript(trNo int, mode, scratch string, ops []ExpOp) ([]ExpLine, error
 				var cas uint64
 				_, cas, _ = c.GetRaw(op.Key)
 				_, err = c.WriteCas(op.Key, exp, cas, []byte(`4`), 0)
+			case "Recreate":
+				if op.Coll == "c1" {
+					if err = b.DropDataStore(dsName("c1")); err == nil {
+						err = openColl("c1")
+					}
+				}
 			case "Reopen":
 				for _, t := range terms {
 					close(t)
@@ -195,7 +225,7 @@ func runExpScript(trNo int, mode, scratch string, ops []ExpOp) ([]ExpLine, error
 				}
 			}
 		}()
-		if op.Op != "Reopen" {
+		if op.Op != "Reopen" && op.Op != "Recreate" {
 			lastWrite[op.Coll+"/"+op.Key] = time.Now()
 		}
 		line.Res = classify(err)
